@@ -36,6 +36,7 @@ type Pigeon struct {
 	Version                               string
 	EagerConfirm                          bool // confirm batches before their estimate is elected
 	ClaimsPerTick                         int
+	ClaimDelay                            uint64 // only report events at least this many remote blocks old
 	NoSkyway                              bool
 	NoSign, NoEstimate, NoRelay, NoAttest bool
 
@@ -81,7 +82,7 @@ func (p *Pigeon) send(kind string, msg sdk.Msg) bool {
 	res := p.B.Submit(p.V.Acct, msg)
 	if res.Accepted() {
 		p.Sent[kind]++
-		if kind == "evidence" || kind == "estimate" || kind == "publicaccess" || kind == "errordata" {
+		if kind == "evidence" || kind == "estimate" || kind == "publicaccess" || kind == "errordata" || kind == "claim" {
 			p.Log = append(p.Log, SentTx{kind, msg, res.Tx})
 			if len(p.Log) > 400 {
 				p.Log = p.Log[200:]
@@ -613,6 +614,9 @@ func (p *Pigeon) tickSkyway(chain string) {
 		for _, e := range evs {
 			if n >= p.ClaimsPerTick {
 				break
+			}
+			if e.Block+p.ClaimDelay > ch.Block {
+				break // not old enough yet (and claims must go in order)
 			}
 			claim := p.ClaimFor(chain, e)
 			if claim == nil {
